@@ -38,6 +38,13 @@ type job struct {
 	Seed       uint64
 	Stream     []byte `json:"-"` // reader jobs: input stream
 	Content    []byte `json:"-"`
+	// Disturb marks an instance with an abnormal history whose own result is not judged: it runs
+	// next to the judged instances and must not affect them.  1: the sink fails once at the last
+	// call of Close (Close is retried); 2: the sink fails once at a seed-chosen call (the failed
+	// call is retried); 3: the sink fails for good, the writer is abandoned without Close;
+	// 4 (readers): the source fails half-way and the reader is abandoned; 5 (readers): a byte of
+	// the stream is damaged.
+	Disturb int
 }
 
 func (j job) key() string {
@@ -89,6 +96,9 @@ func run(j job, g int32, yseed uint64) (out []byte, err error) {
 		data := gen.Data(prng.New(j.Seed, 1), j.Family, j.N)
 		sink := mon.NewSink()
 		sink.Yield = yield
+		if j.Disturb > 0 {
+			return nil, disturbWriter(j, props, data, sink)
+		}
 		var w io.WriteCloser
 		switch j.Kind {
 		case "xzW":
@@ -125,7 +135,15 @@ func run(j job, g int32, yseed uint64) (out []byte, err error) {
 		}
 		return out, nil
 	default:
+		if j.Disturb == 5 && len(j.Stream) > 0 {
+			st := append([]byte(nil), j.Stream...)
+			st[len(st)/2+int(j.Seed%7)%len(st)/2] ^= 0x10
+			j.Stream = st
+		}
 		src := mon.NewSource(j.Stream)
+		if j.Disturb == 4 {
+			src.FailAt = len(j.Stream) / 2
+		}
 		src.Frag = "short"
 		k := 0
 		src.Next = func(max int) int { k++; return 1 + (k*37)%977 }
@@ -144,6 +162,67 @@ func run(j job, g int32, yseed uint64) (out []byte, err error) {
 		}
 		return io.ReadAll(r)
 	}
+}
+
+func newWriter(j job, props *lzma.Properties, sink io.Writer) (w io.WriteCloser, err error) {
+	switch j.Kind {
+	case "xzW":
+		return xz.WriterConfig{Properties: props, DictCap: j.Dict, BlockSize: j.Block, CheckSum: j.Check, Matcher: lzma.MatchAlgorithm(j.Matcher)}.NewWriter(sink)
+	case "lzmaW":
+		if j.LC+j.LP > 4 {
+			props = &lzma.Properties{LC: 3, LP: 0, PB: 2}
+		}
+		return lzma.WriterConfig{Properties: props, DictCap: j.Dict, Matcher: lzma.MatchAlgorithm(j.Matcher)}.NewWriter(sink)
+	}
+	return lzma.Writer2Config{Properties: props, DictCap: j.Dict, Matcher: lzma.MatchAlgorithm(j.Matcher)}.NewWriter2(sink)
+}
+
+// disturbWriter drives a writer through a history with sink failures: a dry run counts the
+// sink calls, then the same writes are repeated on a fresh writer whose sink fails as
+// j.Disturb says; a failed Write or Close is retried (legal use: the caller saw a transient
+// error) up to three times.  Errors and panics of this instance are its own business (C09).
+func disturbWriter(j job, props *lzma.Properties, data []byte, sink *mon.Sink) error {
+	dry := mon.NewSink()
+	dry.Yield = sink.Yield
+	w, err := newWriter(j, props, dry)
+	if err != nil {
+		return nil
+	}
+	w.Write(data)
+	beforeClose := dry.Calls
+	w.Close()
+	total := dry.Calls
+	switch j.Disturb {
+	case 1:
+		sink.FailAt = total - 1
+	case 2:
+		sink.FailAt = int(j.Seed % uint64(total))
+		if j.Seed&1 == 0 && total > beforeClose {
+			sink.FailAt = beforeClose + int(j.Seed>>8)%(total-beforeClose)
+		}
+	default:
+		sink.FailAt = int(j.Seed % uint64(total))
+		sink.Forever = true
+	}
+	w, err = newWriter(j, props, sink)
+	if err != nil {
+		return nil
+	}
+	for try := 0; try < 3; try++ {
+		if _, err = w.Write(data); err == nil {
+			break
+		}
+		data = nil // a retried Write adds nothing new; Close decides
+	}
+	if j.Disturb == 3 {
+		return nil // abandoned
+	}
+	for try := 0; try < 3; try++ {
+		if err = w.Close(); err == nil {
+			break
+		}
+	}
+	return nil
 }
 
 type result struct {
@@ -178,6 +257,7 @@ func main() {
 	cfgs := map[string]bool{}
 	for round := 0; round < *rounds; round++ {
 		n := []int{16, 2, 4, 32}[round%4]
+		roundDict := []int{4096, 65536, 8192}[(round/2)%3]
 		jobs := make([]job, n)
 		for i := range jobs {
 			if round > 0 && len(pool) > 0 && r.Chance(1, 2) {
@@ -186,9 +266,52 @@ func main() {
 				jobs[i] = job{Kind: kind, Dict: p.j.Dict, Stream: p.out, Seed: p.j.Seed, N: len(p.out), Family: "from:" + p.j.Family, LC: p.j.LC, LP: p.j.LP, PB: p.j.PB, Matcher: p.j.Matcher, Block: p.j.Block, Check: p.j.Check}
 			} else {
 				jobs[i] = mkWriterJob(r)
+				// most instances of a round share one dictionary size: package-level state
+				// keyed by configuration (pools, caches) only shows with equal configurations
+				if r.Chance(3, 4) {
+					jobs[i].Dict = roundDict
+				}
 			}
 			cfgs[fmt.Sprintf("%s|%d%d%d|%d|%d", jobs[i].Kind, jobs[i].LC, jobs[i].LP, jobs[i].PB, jobs[i].Dict, jobs[i].Matcher)] = true
 		}
+		// disturbers: instances with failing sinks / sources, retried and abandoned calls
+		judged := n
+		for k := 0; k < 4 && n >= 4; k++ {
+			d := mkWriterJob(r)
+			d.Kind = []string{"lzma2W", "xzW", "lzmaW", "lzma2W"}[k]
+			d.Disturb = []int{1, 2, 3, 2}[(k+round)%4]
+			if k == 0 {
+				d.Disturb = 1
+			}
+			d.Matcher = (k + round) % 2
+			d.Dict = roundDict
+			if d.N > 5000 {
+				d.N = 5000
+			}
+			jobs = append(jobs, d)
+			if len(pool) > 0 {
+				p := pool[r.Intn(len(pool))]
+				kind := map[string]string{"xzW": "xzR", "lzmaW": "lzmaR", "lzma2W": "lzma2R"}[p.j.Kind]
+				jobs = append(jobs, job{Kind: kind, Dict: p.j.Dict, Stream: p.out, Seed: p.j.Seed + uint64(k), N: len(p.out), Family: "from:" + p.j.Family, Disturb: 4 + k%2})
+			}
+		}
+		n = len(jobs)
+		// pre-phase: a batch of small instances with failing sinks (every dictionary size of the
+		// judged jobs, both matchers, all writer kinds; failed calls retried) runs to completion
+		// right before the round starts, so whatever such histories leave behind in
+		// package-level state is still there when the judged instances are created
+		var pre sync.WaitGroup
+		for k := 0; k < 18; k++ {
+			d := job{Kind: []string{"lzma2W", "xzW", "lzmaW"}[k%3], LC: 3, PB: 2, Dict: []int{roundDict, roundDict, 4096, 8192, 65536, roundDict}[(k/3)%6], Matcher: (k / 3) % 2,
+				Check: 4, Family: "text", N: 600 + 100*k, Seed: r.U64(), Disturb: 1 + (k/3+round)%2}
+			if k%3 == 0 {
+				d.Disturb = 1
+			}
+			res.Kinds[fmt.Sprintf("%s-predisturber%d", d.Kind, d.Disturb)]++
+			pre.Add(1)
+			go func() { defer pre.Done(); run(d, 63, *seed) }()
+		}
+		pre.Wait()
 		atomic.StoreInt64(&ticket, 0)
 		order = make([]int32, 1<<20)
 		outs := make([][]byte, n)
@@ -222,6 +345,10 @@ func main() {
 		mu.Lock()
 		for i, j := range jobs {
 			res.InstanceRuns++
+			if i >= judged || j.Disturb > 0 {
+				res.Kinds[fmt.Sprintf("%s-disturber%d", j.Kind, j.Disturb)]++
+				continue
+			}
 			res.Kinds[j.Kind]++
 			if errs[i] != nil {
 				res.Errors = append(res.Errors, fmt.Sprintf("round %d goroutine %d %s: %v", round, i, j.key(), errs[i]))
